@@ -20,6 +20,7 @@ fn leak(s: &str) -> &'static str { Box::leak(s.to_string().into_boxed_str()) }
 
 #[derive(Deserialize, Schema)] struct QueryA { q: String, page: Option<u32> }
 #[derive(Deserialize, Schema)] #[openapi(component)] struct QueryB { tag: String }
+#[derive(Deserialize, Schema)] struct QueryC { name: String, age: u8, nick: Option<String>, zone: String, #[serde(default)] limit: u32 }
 #[derive(Deserialize, Schema)] #[openapi(component)] struct BodyJ { name: String, age: u8 }
 #[derive(Deserialize, Schema)] struct BodyU { a: String, #[serde(default)] b: Option<i32> }
 #[derive(Deserialize, Schema)] struct BodyM { title: String }
@@ -47,6 +48,7 @@ async fn h7(Multipart(b): Multipart<BodyM>) -> status::OK<String> { ran(7); stat
 async fn h8(id: String, Query(q): Query<QueryB>, JSON(b): JSON<BodyJ>) -> Result<status::Created<JSON<Out>>, MyErr> { ran(8); let _ = (id, q.tag, b.name, b.age); Ok(status::Created(JSON(out(8)))) }
 async fn h9() -> Response { ran(9); Response::OK() }
 async fn h10(b: Option<JSON<BodyJ>>) -> Status { ran(10); let _ = b.map(|JSON(b)| (b.name, b.age)); Status::Accepted }
+async fn h12(Query(q): Query<QueryC>) -> String { ran(12); let _ = (q.age, q.nick, q.zone, q.limit); q.name }
 async fn h11((id,): (i64,)) -> Result<String, status::NotFound<String>> { ran(11); if id < 0 { Err(status::NotFound("no".into())) } else { Ok("yes".into()) } }
 
 #[derive(Clone)]
@@ -99,7 +101,7 @@ fn add_handler(hs: Option<HS>, route: &'static str, m: &str, local: &[Value], k:
         0 => add_with_local!(hs, route, m, local, h0), 1 => add_with_local!(hs, route, m, local, h1), 2 => add_with_local!(hs, route, m, local, h2),
         3 => add_with_local!(hs, route, m, local, h3), 4 => add_with_local!(hs, route, m, local, h4), 5 => add_with_local!(hs, route, m, local, h5),
         6 => add_with_local!(hs, route, m, local, h6), 7 => add_with_local!(hs, route, m, local, h7), 8 => add_with_local!(hs, route, m, local, h8),
-        9 => add_with_local!(hs, route, m, local, h9), 10 => add_with_local!(hs, route, m, local, h10), 11 => add_with_local!(hs, route, m, local, h11),
+        9 => add_with_local!(hs, route, m, local, h9), 10 => add_with_local!(hs, route, m, local, h10), 11 => add_with_local!(hs, route, m, local, h11), 12 => add_with_local!(hs, route, m, local, h12),
         k => panic!("harness: handler {k}"),
     }
 }
